@@ -15,14 +15,15 @@ META = {
         "generators Line, Rectangle, Cube, Grid with symbolic bounds (b = a + L, L in [0.2, 3]) and 2-3 points per axis: cells tile the box (sum of dV = product of side lengths), every dV > 0 (the library's "
         "own negative-volume test is EXPLORED, not assumed: the negative branch must be infeasible), no unused and no duplicate points",
         "transformations on a symbolically affine image X = A xi + c of a 2-cell quad mesh / 1-cell hex mesh (det A > 0): rotate (symbolic angle and centre), translate, mirror (axis and general normal), "
-        "flip o flip, triangulate (quad; hexahedron modes 0 and 3), expand (symbolic thickness), revolve (orientation), add_midpoints_edges / faces / volumes and convert (inserted points are centroids; measure "
-        "preserved), concatenate, stack, disconnect, merge_duplicate_points: total measure preserved and every new cell positively oriented",
+        "flip o flip, triangulate (quad; hexahedron modes 0 and 3, also on a tapered, planar-faced hexahedron that is not a parallelepiped), expand (symbolic thickness), revolve (orientation), add_midpoints_edges / faces / volumes and convert (inserted points are centroids; measure "
+        "preserved), concatenate (also of meshes with different numbers of points: corners kept), stack, disconnect, merge_duplicate_points: total measure preserved and every new cell positively oriented",
         "Triangle(a, b, c, n = 2, 3 (4 thorough)) with SYMBOLIC corners (a non-degenerate, positively oriented family): cells tile the triangle (area = det / 2, 1e-9), every dV > 0, all points inside "
         "(barycentric coordinates > -1e-9), each corner is a mesh point, no unused / duplicate points, expected counts. The generator's final sweep runs CONCOLICALLY (merge pattern from the real function at one "
         "sample; 'every merged pair coincides on the whole domain' is an obligation); scipy's griddata inside fill_between is a contract stub (1-D linear interpolation)",
         "Circle(n = 2, 3 (4 thorough); full, half and three-quarter section lists): generated concretely (the generator multiplies float tables in place), radius and centre symbolic afterwards: dV > 0, boundary "
         "points on the circle, cells tile the inscribed polygon (shoelace), all points inside the disc, no unused / duplicate points, cell count",
         "programs: sequences of 2-4 transformations with independent symbolic arguments on the affine quad mesh: measure and orientation after the program (an odd number of flips must invert the orientation)",
+        "integer-typed point arrays: rotate (also masked), mirror, revolve do not round the new coordinates (concrete data)",
         "merge_duplicate_points itself runs on concrete data (np.unique(axis=0) does not accept symbolic arrays) for decimals in {None, 0, 6, 10, -1} with interface points off by 1e-3 rounding steps: corners unmoved "
         "within the rounding step, no two output points equal or closer than half a step, connectivity consistent, MeshContainer(merge=True) shares the merged points",
     ],
@@ -97,10 +98,13 @@ def case_generator(ctx, kind):
     ctx.holds("points_inside_box", [(P[p, i] >= a[i]) & (P[p, i] <= b[i]) for p in range(mesh.npoints) for i in range(dim)] if ctx.sym else [bool(a[i] - 1e-14 <= P[p, i] <= b[i] + 1e-14) for p in range(mesh.npoints) for i in range(dim)])
 
 
-def affine_mesh(ctx, dim):
+def affine_mesh(ctx, dim, taper=False):
     with ctx.concrete():
         m0 = fem.Rectangle(b=(2, 1), n=(3, 2)) if dim == 2 else fem.Cube(n=2)
         X0 = m0.points.copy()
+    if taper:
+        # a planar-faced cell that is NOT a parallelepiped: (x, y, z) -> (x, y (1 + a x), z (1 + b x)) + c (all six faces stay planar)
+        return tapered_mesh(ctx, m0, X0)
     A = np.empty((dim, dim), dtype=object if ctx.sym else float)
     for i in range(dim):
         for j in range(dim):
@@ -115,8 +119,23 @@ def affine_mesh(ctx, dim):
     return mesh, detA * (2 if dim == 2 else 1)
 
 
-def case_transform(ctx, op, dim=2):
-    mesh, vol0 = affine_mesh(ctx, dim)
+def tapered_mesh(ctx, m0, X0):
+    ta, tb = ctx.var("taper_a", -0.4, 0.4), ctx.var("taper_b", -0.4, 0.4)
+    # (a shear coupled with the taper would warp two faces: with non-planar faces a tetrahedral split cannot keep the volume)
+    cvec = ctx.array("c", (3,), -1, 1)
+    pts = np.empty(X0.shape, dtype=object if ctx.sym else float)
+    for p in range(len(X0)):
+        x, y, z = (int(v) for v in X0[p]) if ctx.sym else X0[p]
+        pts[p, 0] = x + cvec[0]
+        pts[p, 1] = y * (1 + ta * x) + cvec[1]
+        pts[p, 2] = z * (1 + tb * x) + cvec[2]
+    # volume of the image of the unit cube: int (1 + a x)(1 + b x) dx = 1 + (a + b)/2 + a b/3
+    vol = 1 + (ta + tb) / 2 + ta * tb / 3
+    return fem.Mesh(pts, m0.cells, m0.cell_type), vol
+
+
+def case_transform(ctx, op, dim=2, taper=False):
+    mesh, vol0 = affine_mesh(ctx, dim, taper=taper)
     d0 = dV_of(ctx, mesh)
     ctx.equal("base_mesh_measure", np.asarray(d0).sum(), vol0, tol=1e-12)
     factor = 1
@@ -142,8 +161,10 @@ def case_transform(ctx, op, dim=2):
         z = ctx.var("z", 0.2, 3)
         new = mesh.expand(n=3, z=z)
         factor = z
-    elif op == "revolve":
-        new = fem.Mesh(np.asarray(mesh.points) + (np.array([0, 3]) if dim == 2 else 0), mesh.cells, mesh.cell_type).revolve(n=3, phi=60)
+    elif op in ("revolve", "revolve_axis1", "revolve_axis0_negative_side"):
+        # the section lies entirely on one side of the axis of revolution (radius 2..4)
+        shift, axis = {"revolve": ([0, 3], 0), "revolve_axis1": ([3, 0], 1), "revolve_axis0_negative_side": ([0, -4], 0)}[op]
+        new = fem.Mesh(np.asarray(mesh.points) + np.array(shift), mesh.cells, mesh.cell_type).revolve(n=3, phi=60, axis=axis)
         factor = None
     elif op == "midpoints_edges":
         new = mesh.add_midpoints_edges()
@@ -159,6 +180,19 @@ def case_transform(ctx, op, dim=2):
         other = mesh.translate(0.0, axis=0)
         new = fem.mesh.concatenate([mesh, other])
         factor = 2
+    elif op == "concatenate_unequal":
+        # meshes with DIFFERENT numbers of points (the second one is one cell of the first, moved): corners and measure are kept
+        other = fem.Mesh(np.asarray(mesh.points)[mesh.cells[0]] + np.array([5, 0] + [0] * (dim - 2)), np.arange(mesh.cells.shape[1]).reshape(1, -1), mesh.cell_type)
+        for first, second, tag in ((mesh, other, "big_first"), (other, mesh, "small_first")):
+            cat = fem.mesh.concatenate([first, second])
+            exp = np.concatenate([np.asarray(first.points)[first.cells], np.asarray(second.points)[second.cells]])
+            inrange = bool(np.asarray(cat.cells).min() >= 0 and np.asarray(cat.cells).max() < len(cat.points))
+            ctx.check_concrete("concatenated_cells_refer_to_existing_points_%s" % tag, inrange)
+            if inrange:
+                ctx.equal("concatenated_cells_keep_their_corners_%s" % tag, np.asarray(cat.points)[cat.cells], exp)
+        new = fem.mesh.concatenate([mesh, other])
+        factor = None
+        ctx.equal("total_measure_of_unequal_concatenation", np.asarray(dV_of(ctx, new)).sum(), np.asarray(d0).sum() + np.asarray(dV_of(ctx, other)).sum(), tol=1e-9)
     elif op == "stack":
         new = fem.mesh.stack([mesh, mesh])
         factor = 2
@@ -265,6 +299,40 @@ def case_program(ctx, ops):
     else:
         positive(ctx, "odd_number_of_flips_inverts_orientation", -np.asarray(d1))
     ctx.equal("total_measure_after_program", np.asarray(d1).sum() * sign, np.asarray(d0).sum() * factor, tol=1e-9, box={"atom:root": (0.4, 3), "atom:sin": (-1, 1), "atom:cos": (-1, 1)})
+
+
+def case_integer_points(ctx, op):
+    """meshes whose point array has an INTEGER dtype (built by hand, e.g. from a grid of integers): a transformation must not round
+    the new coordinates back to integers.  Concrete data (dtype handling is not symbolic); rigid motions keep the cell measures"""
+    with ctx.concrete():
+        m = fem.Mesh(np.array([[0, 0], [2, 0], [4, 0], [0, 1], [2, 1], [4, 1]]), np.array([[0, 1, 4, 3], [1, 2, 5, 4]]), "quad")
+        before = fem.RegionQuad(fem.Mesh(m.points.astype(float), m.cells, m.cell_type)).dV.sum(axis=0)
+        try:
+            if op == "rotate":
+                new = m.rotate(30, axis=2, center=[1, 0])
+            elif op == "rotate_masked":
+                new = m.rotate(30, axis=2, mask=np.array([False, False, True, False, False, True]))
+            elif op == "mirror":
+                new = m.mirror(normal=[1, 1, 0], centerpoint=[0.25, 0, 0])
+            else:
+                new = m.revolve(n=2, phi=30)
+            raised = None
+        except Exception as e:  # noqa: BLE001  a loud refusal of integer points is acceptable, silent rounding is not
+            raised, new = type(e).__name__, None
+        ok, detail = True, ""
+        if new is not None and op in ("rotate", "mirror"):
+            after = np.abs(fem.RegionQuad(fem.Mesh(np.asarray(new.points, dtype=float), new.cells, new.cell_type)).dV.sum(axis=0))
+            ok = bool(np.allclose(after, before, rtol=1e-12))
+            detail = "cell areas %s -> %s" % (before, after)
+        if new is not None and op == "rotate":
+            c, s_ = np.cos(np.pi / 6), np.sin(np.pi / 6)
+            exp = (np.array([[c, -s_], [s_, c]]) @ (m.points - np.array([1, 0])).T).T + np.array([1, 0])
+            ok = ok and bool(np.allclose(np.asarray(new.points, dtype=float), exp, atol=1e-12))
+        if new is not None and op == "rotate_masked":
+            ok = bool(np.allclose(np.asarray(new.points, dtype=float)[[0, 1, 3, 4]], m.points[[0, 1, 3, 4]])) and not np.allclose(np.asarray(new.points, dtype=float)[2], np.round(np.asarray(new.points, dtype=float)[2]))
+    ctx.check_concrete("integer_point_arrays_are_not_rounded_by_the_transformation", ok, detail)
+    s = ctx.var("s", 0.5, 2)
+    ctx.equal("solver_content", s * 1, s)
 
 
 def case_tetra_midpoints(ctx):
@@ -479,13 +547,16 @@ def case_merge(ctx, decimals):
 
 def cases(tier):
     out = [("generator", case_generator, {"kind": k, "max_paths": 16}) for k in ("Line", "Rectangle", "Cube", "Grid")]
-    ops2 = ["rotate", "translate", "mirror_axis", "mirror_normal", "flipflip", "triangulate", "expand", "midpoints_edges", "midpoints_faces", "disconnect", "concatenate_merge", "stack"]
+    ops2 = ["rotate", "translate", "mirror_axis", "mirror_normal", "flipflip", "triangulate", "expand", "midpoints_edges", "midpoints_faces", "disconnect", "concatenate_merge", "concatenate_unequal", "stack"]
     for op in ops2:
         out.append(("transform", case_transform, {"op": op, "dim": 2, "max_paths": 16}))
     ops3 = ["translate", "triangulate", "triangulate0", "mirror_axis"] + (["rotate", "midpoints_volumes", "convert2", "flipflip"] if tier == "thorough" else [])
     for op in ops3:
         out.append(("transform", case_transform, {"op": op, "dim": 3, "max_paths": 16}))
-    out.append(("transform", case_transform, {"op": "revolve", "dim": 2, "max_paths": 16}))
+    for op in ("triangulate", "triangulate0"):
+        out.append(("transform", case_transform, {"op": op, "dim": 3, "taper": True, "max_paths": 16}))
+    for op in ("revolve", "revolve_axis1", "revolve_axis0_negative_side"):
+        out.append(("transform", case_transform, {"op": op, "dim": 2, "max_paths": 16}))
     rigid = ["rotate", "translate", "mirror_axis", "mirror_normal"]
     if tier == "quick":
         progs = [["rotate", "mirror_axis", "triangulate"], ["mirror_normal", "rotate", "expand"], ["mirror_axis", "mirror_normal", "triangulate"], ["flip", "mirror_axis", "flip"], ["translate", "rotate", "stack_self"], ["mirror_axis", "flip"]]
@@ -493,6 +564,8 @@ def cases(tier):
         progs = [[a, b, c] for a in rigid for b in rigid for c in ("none", "triangulate", "expand")] + [["flip", a, "flip"] for a in rigid] + [[a, "flip"] for a in rigid] + [["rotate", "mirror_normal", "rotate", "triangulate"]]
     for pr in progs:
         out.append(("program", case_program, {"ops": pr, "max_paths": 16}))
+    for op in ("rotate", "rotate_masked", "mirror", "revolve"):
+        out.append(("integer_points", case_integer_points, {"op": op}))
     out.append(("tetra_midpoints", case_tetra_midpoints, {}))
     for dec in (None, 0, 6, 10, -1):
         out.append(("merge", case_merge, {"decimals": dec}))
